@@ -93,6 +93,7 @@ type ReplayFile struct {
 
 var stepCtr atomic.Int64
 var curRun atomic.Int64
+
 // raceTier: the binary was built with -race (driver sets SIM_RACE=1).
 var raceTier = os.Getenv("SIM_RACE") == "1"
 
